@@ -561,6 +561,12 @@ main:
 			)
 		}
 
+		// Stop may have expired the read deadline to shut the session down while this
+		// packet was being sent: do not let the re-arm above undo that.
+		if ctx.Err() != nil {
+			_ = uplink.natConn.SetReadDeadline(conn.ALongTimeAgo)
+		}
+
 		qpvecn := qpvec[:count]
 
 		for i := range qpvecn {
